@@ -1006,6 +1006,7 @@ def _is_empty_test(test):
 
 class RunLoopDomain(Domain):
     """state = (done, entered, empty_known, tymer_after_enter, seq, bad)"""
+    whole_boolops = True        # the limit test is classified as a whole conjunction
 
     def __init__(self, tymer_names, timer_names):
         self.tymers = tymer_names
